@@ -15,9 +15,11 @@ package xindexheader
 
 import (
 	"context"
+	"encoding/base64"
 	"errors"
 	"fmt"
 	"os"
+	"path/filepath"
 	"sort"
 	"strings"
 	"testing"
@@ -36,6 +38,8 @@ type hdrCase struct {
 	ref      *reference
 	rd       indexheader.Reader
 	sampling int
+	// how often the last entry of the postings offset table was returned with an exact / over-long end
+	lastExact, lastLonger int
 }
 
 // checkStatic compares everything that does not depend on a requested value list.
@@ -144,6 +148,11 @@ func (c *hdrCase) checkPresentRange(name, value string, rng index.Range) string 
 	if rng.Start != want.Start || (!isLast && rng.End != want.End) || (isLast && (rng.End < want.End || rng.End > int64(len(c.ref.raw)))) {
 		return fmt.Sprintf("%q=%q: header range %v, full index range %v (last entry of the table: %v)", name, value, rng, want, isLast)
 	}
+	if isLast && rng.End == want.End {
+		c.lastExact++
+	} else if isLast {
+		c.lastLonger++
+	}
 	got, tail, err := decodeRange(c.ref.raw, rng)
 	if err != nil {
 		return fmt.Sprintf("%q=%q: %v", name, value, err)
@@ -162,11 +171,11 @@ func (c *hdrCase) checkPresentRange(name, value string, rng index.Range) string 
 }
 
 type listStats struct {
-	present, absent, dups    int
-	sampled, unsampled       int
-	first, last              int
-	before, between, after   int
-	mixed, hasDup, nontrivia bool
+	present, absent, dups  int
+	sampled, unsampled     int
+	first, last            int
+	before, between, after int
+	mixed, hasDup          bool
 }
 
 // checkList: one PostingsOffsets call for a name that exists.
@@ -254,7 +263,9 @@ func (c *hdrCase) checkAbsentName(name string, vals []string) string {
 	return ""
 }
 
-var readerKinds = []string{"binary-file", "binary-file", "binary-mem", "lazy", "lazy-download"}
+// Reader kinds, weighted: the in-memory reader needs no header file (three fsyncs less per reader),
+// which matters for the run time on a loaded machine; the parsing and lookup code is the same.
+var readerKinds = []string{"binary-mem", "binary-mem", "binary-mem", "binary-mem", "binary-file", "binary-file", "lazy", "lazy-download"}
 
 func openHeader(kind string, ref *reference, id ulid.ULID, hdrDir string, sampling int) (indexheader.Reader, error) {
 	bkt, err := uploadIndex(ref.raw, id)
@@ -274,6 +285,168 @@ func openHeader(kind string, ref *reference, id ulid.ULID, hdrDir string, sampli
 }
 
 var c11ULID = ulid.MustParse("01HZZZZZZZZZZZZZZZZZZZZZZ1")
+
+const sigC11V1Absent = "C11/v1-absent-values-omitted"
+
+type readerOutcome struct {
+	key        string
+	classes    []string
+	nontrivial bool
+}
+
+// exerciseReader opens one index-header reader (kind and sampling drawn) on the reference's index and
+// runs the whole oracle against it. onlyPresent restricts the requested value lists to existing
+// values (used for the format-v1 index while finding C11/v1-absent-values-omitted is known).
+func exerciseReader(rt *rapid.T, rec *kit.Rec, ref *reference, dir, desc string, onlyPresent bool) readerOutcome {
+	var out readerOutcome
+	sampling := rapid.SampledFrom([]int{1, 2, 3, 4, 5, 7, 8, 16, 31, 32, 33, 64}).Draw(rt, "sampling")
+	if rapid.Bool().Draw(rt, "anySampling") {
+		sampling = rapid.IntRange(1, 64).Draw(rt, "samplingAny")
+	}
+	kind := rapid.SampledFrom(readerKinds).Draw(rt, "readerKind")
+	hdrDir, err := os.MkdirTemp(dir, "hdr")
+	if err != nil {
+		rt.Fatalf("harness: %v", err)
+	}
+	rd, err := openHeader(kind, ref, c11ULID, hdrDir, sampling)
+	if err != nil {
+		rt.Fatalf("C11 violated: building the index header failed: %v (%s sampling=%d %s)", err, kind, sampling, desc)
+	}
+	c := &hdrCase{ref: ref, rd: rd, sampling: sampling}
+	fail := func(msg string) {
+		_ = rd.Close()
+		rt.Fatalf("C11 violated: %s\nreader=%s sampling=%d index: %s", msg, kind, sampling, desc)
+	}
+	var probes []int
+	for i, n := 0, rapid.IntRange(0, 30).Draw(rt, "symProbes"); i < n; i++ {
+		probes = append(probes, rapid.IntRange(0, len(ref.symbols)+2).Draw(rt, "symRef"))
+	}
+	if m := c.checkStatic(probes); m != "" {
+		fail(m)
+	}
+	var key strings.Builder
+	fmt.Fprintf(&key, " | %s/%d", kind, sampling)
+	out.classes = append(out.classes, "reader:"+kind)
+	switch {
+	case sampling == 1:
+		out.classes = append(out.classes, "sampling=1")
+	case sampling <= 8:
+		out.classes = append(out.classes, "sampling=2..8")
+	default:
+		out.classes = append(out.classes, "sampling=9..64")
+	}
+	unsampledNT := false
+	nLists := rapid.IntRange(2, 12).Draw(rt, "lists")
+	for li := 0; li < nLists; li++ {
+		name := rapid.SampledFrom(ref.names).Draw(rt, "name")
+		if rapid.IntRange(0, 14).Draw(rt, "absentName") == 0 {
+			an := rapid.SampledFrom(absentNames(ref.names)).Draw(rt, "an")
+			vals := genValueList(rt, ref.values[name])
+			if m := c.checkAbsentName(an, vals); m != "" {
+				fail(m)
+			}
+			rec.Class("list:absent-name")
+			continue
+		}
+		vals := genValueList(rt, ref.values[name])
+		if onlyPresent {
+			kept := vals[:0:0]
+			for _, v := range vals {
+				if classifyValue(ref.values[name], v) == "present" {
+					kept = append(kept, v)
+				}
+			}
+			if len(kept) != len(vals) {
+				rec.Excluded(sigC11V1Absent)
+				// the single-value entry point is not affected by the finding: keep asserting it.
+				for _, v := range vals {
+					if classifyValue(ref.values[name], v) != "present" {
+						if m := c.checkSingle(name, v); m != "" {
+							fail(m)
+						}
+						break
+					}
+				}
+			}
+			vals = kept
+		}
+		m, st := c.checkList(name, vals)
+		if m != "" {
+			fail(m)
+		}
+		if len(vals) > 0 {
+			if m := c.checkSingle(name, vals[rapid.IntRange(0, len(vals)-1).Draw(rt, "single")]); m != "" {
+				fail(m)
+			}
+		}
+		card := len(ref.values[name])
+		fmt.Fprintf(&key, " %q%s", name, renderList(vals))
+		if len(vals) == 0 {
+			rec.Class("list:empty")
+		}
+		if st.mixed {
+			rec.Class("list:present+absent")
+		}
+		if st.hasDup {
+			rec.Class("list:duplicates")
+		}
+		if st.present > 0 && st.absent == 0 {
+			rec.Class("list:all-present")
+		}
+		if st.present == 0 && st.absent > 0 {
+			rec.Class("list:all-absent")
+		}
+		for _, x := range []struct {
+			cl string
+			n  int
+		}{{"val:present-on-sampled-offset", st.sampled}, {"val:present-between-sampled-offsets", st.unsampled},
+			{"val:first-of-name", st.first}, {"val:last-of-name", st.last}, {"val:absent-before-first", st.before},
+			{"val:absent-between", st.between}, {"val:absent-after-last", st.after}} {
+			if x.n > 0 {
+				rec.Class(x.cl)
+			}
+		}
+		switch {
+		case card == 1:
+			rec.Class("name:single-value")
+		case card <= sampling:
+			rec.Class("name:card<=sampling")
+		case card > 2*sampling:
+			rec.Class("name:card>2*sampling")
+		}
+		if sampling > 1 && (st.mixed || st.hasDup) {
+			out.nontrivial = true
+			if st.unsampled > 0 {
+				unsampledNT = true
+			}
+		}
+	}
+	if unsampledNT {
+		out.classes = append(out.classes, "nontrivial-with-unsampled-value")
+	}
+	if c.lastExact > 0 {
+		out.classes = append(out.classes, "last-table-entry:end-exact")
+	}
+	if c.lastLonger > 0 {
+		out.classes = append(out.classes, "last-table-entry:end-over-long")
+	}
+	if err := rd.Close(); err != nil {
+		rt.Fatalf("C11 violated: Close: %v", err)
+	}
+	out.key = key.String()
+	return out
+}
+
+func uniqSorted(in []string) []string {
+	sort.Strings(in)
+	out := in[:0]
+	for i, s := range in {
+		if i == 0 || in[i-1] != s {
+			out = append(out, s)
+		}
+	}
+	return out
+}
 
 func TestVerifC11(t *testing.T) {
 	rec := kit.For(t, "C11")
@@ -295,117 +468,66 @@ func TestVerifC11(t *testing.T) {
 		}
 		defer ref.close()
 
-		nReaders := rapid.IntRange(1, 3).Draw(rt, "readers")
-		var key strings.Builder
-		key.WriteString(spec.desc)
-		classes := map[string]bool{}
+		key := spec.desc
+		var classes []string
 		nontrivial := false
-		for ri := 0; ri < nReaders; ri++ {
-			sampling := rapid.SampledFrom([]int{1, 2, 3, 4, 5, 7, 8, 16, 31, 32, 33, 64}).Draw(rt, "sampling")
-			if rapid.Bool().Draw(rt, "anySampling") {
-				sampling = rapid.IntRange(1, 64).Draw(rt, "samplingAny")
-			}
-			kind := rapid.SampledFrom(readerKinds).Draw(rt, "readerKind")
-			hdrDir, err := os.MkdirTemp(dir, "hdr")
-			if err != nil {
-				rt.Fatalf("harness: %v", err)
-			}
-			rd, err := openHeader(kind, ref, c11ULID, hdrDir, sampling)
-			if err != nil {
-				rt.Fatalf("C11 violated: building the index header failed: %v (%s sampling=%d %s)", err, kind, sampling, spec.desc)
-			}
-			c := &hdrCase{ref: ref, rd: rd, sampling: sampling}
-			fail := func(msg string) {
-				_ = rd.Close()
-				rt.Fatalf("C11 violated: %s\nreader=%s sampling=%d index: %s", msg, kind, sampling, spec.desc)
-			}
-			var probes []int
-			for i, n := 0, rapid.IntRange(0, 30).Draw(rt, "symProbes"); i < n; i++ {
-				probes = append(probes, rapid.IntRange(0, len(ref.symbols)+2).Draw(rt, "symRef"))
-			}
-			if m := c.checkStatic(probes); m != "" {
-				fail(m)
-			}
-			fmt.Fprintf(&key, " | %s/%d", kind, sampling)
-			classes["reader:"+kind] = true
-			switch {
-			case sampling == 1:
-				classes["sampling=1"] = true
-			case sampling <= 8:
-				classes["sampling=2..8"] = true
-			default:
-				classes["sampling=9..64"] = true
-			}
-			nLists := rapid.IntRange(2, 12).Draw(rt, "lists")
-			for li := 0; li < nLists; li++ {
-				name := rapid.SampledFrom(ref.names).Draw(rt, "name")
-				if rapid.IntRange(0, 14).Draw(rt, "absentName") == 0 {
-					an := rapid.SampledFrom(absentNames(ref.names)).Draw(rt, "an")
-					vals := genValueList(rt, ref.values[name])
-					if m := c.checkAbsentName(an, vals); m != "" {
-						fail(m)
-					}
-					rec.Class("list:absent-name")
-					continue
-				}
-				vals := genValueList(rt, ref.values[name])
-				m, st := c.checkList(name, vals)
-				if m != "" {
-					fail(m)
-				}
-				if len(vals) > 0 {
-					if m := c.checkSingle(name, vals[rapid.IntRange(0, len(vals)-1).Draw(rt, "single")]); m != "" {
-						fail(m)
-					}
-				}
-				card := len(ref.values[name])
-				fmt.Fprintf(&key, " %q%s", name, renderList(vals))
-				if len(vals) == 0 {
-					rec.Class("list:empty")
-				}
-				if st.mixed {
-					rec.Class("list:present+absent")
-				}
-				if st.hasDup {
-					rec.Class("list:duplicates")
-				}
-				if st.present > 0 && st.absent == 0 {
-					rec.Class("list:all-present")
-				}
-				if st.present == 0 && st.absent > 0 {
-					rec.Class("list:all-absent")
-				}
-				for cl, n := range map[string]int{"val:present-on-sampled-offset": st.sampled, "val:present-between-sampled-offsets": st.unsampled,
-					"val:first-of-name": st.first, "val:last-of-name": st.last, "val:absent-before-first": st.before,
-					"val:absent-between": st.between, "val:absent-after-last": st.after} {
-					if n > 0 {
-						rec.Class(cl)
-					}
-				}
-				switch {
-				case card == 1:
-					rec.Class("name:single-value")
-				case card <= sampling:
-					rec.Class("name:card<=sampling")
-				case card > 2*sampling:
-					rec.Class("name:card>2*sampling")
-				}
-				if sampling > 1 && (st.mixed || st.hasDup) {
-					nontrivial = true
-					if st.unsampled > 0 {
-						classes["nontrivial-with-unsampled-value"] = true
-					}
-				}
-			}
-			if err := rd.Close(); err != nil {
-				rt.Fatalf("C11 violated: Close: %v", err)
+		for ri, n := 0, rapid.IntRange(2, 4).Draw(rt, "readers"); ri < n; ri++ {
+			o := exerciseReader(rt, rec, ref, dir, spec.desc, false)
+			key += o.key
+			classes = append(classes, o.classes...)
+			nontrivial = nontrivial || o.nontrivial
+		}
+		rec.Case(key, nontrivial, uniqSorted(classes)...)
+	})
+}
+
+// TestVerifC11_V1 runs the same oracle on the one format-v1 index available (written by Prometheus
+// 2.0; 102 series, names "foo" (2 values) and "bar" (100 values), unsorted postings offset table).
+func TestVerifC11_V1(t *testing.T) {
+	rec := kit.For(t, "C11")
+	known := kit.KnownFindings("C11")[sigC11V1Absent]
+	base := t.TempDir()
+	raw, err := base64.StdEncoding.DecodeString(v1IndexB64)
+	if err != nil {
+		t.Fatalf("harness: %v", err)
+	}
+	path := filepath.Join(base, "index")
+	if err := os.WriteFile(path, raw, 0o644); err != nil {
+		t.Fatalf("harness: %v", err)
+	}
+	ref, err := openReference(path)
+	if err != nil {
+		t.Fatalf("harness: reference reader on the v1 index: %v", err)
+	}
+	defer ref.close()
+	if ref.ir.Version() != index.FormatV1 {
+		t.Fatalf("harness: embedded index is format %d", ref.ir.Version())
+	}
+	// regression input: one absent value among present ones must be reported as NotFoundRange.
+	{
+		hdrDir, _ := os.MkdirTemp(base, "hdr")
+		rd, err := openHeader("binary-file", ref, c11ULID, hdrDir, 3)
+		if err != nil {
+			rec.Violation(t, "building the index header of the v1 index failed: %v", err)
+		}
+		c := &hdrCase{ref: ref, rd: rd, sampling: 3}
+		msg, _ := c.checkList("foo", []string{"bar", "bay", "baz"})
+		_ = rd.Close()
+		if msg != "" {
+			if known {
+				rec.Known(sigC11V1Absent, "format-v1 index: "+msg)
+			} else {
+				rec.Violation(t, "regression (format v1): %s", msg)
 			}
 		}
-		var cl []string
-		for k := range classes {
-			cl = append(cl, k)
+	}
+	rec.Check(t, func(rt *rapid.T) {
+		dir, err := os.MkdirTemp(base, "case")
+		if err != nil {
+			rt.Fatalf("harness: %v", err)
 		}
-		sort.Strings(cl)
-		rec.Case(key.String(), nontrivial, cl...)
+		defer os.RemoveAll(dir)
+		o := exerciseReader(rt, rec, ref, dir, "format-v1 index of thanos' testdata", known)
+		rec.Case("v1"+o.key, o.nontrivial, append(uniqSorted(o.classes), "index-format-v1")...)
 	})
 }
